@@ -397,6 +397,105 @@ pub fn g2(budget: usize, rng: &mut Rng, out: &mut Out, f: &mut dyn FnMut(&mut Ou
 }
 
 // ---------------------------------------------------------------------------------------------
+// G7 — directed low-mobility positions (added after seeded changes C03-a / C04-a)
+// ---------------------------------------------------------------------------------------------
+
+/// One G7 candidate: 3..=10 men, own king preferably on an edge, enemy men preferred (so that the side to move has few
+/// moves); with probability 60 % an en-passant configuration is forced (own pawn next to an enemy pawn that "just" made a
+/// double push), and in half of those the own king is put on the pawns' rank with an enemy rook/queen on that rank on
+/// the other side of the two pawns (the rank-discovery pattern).  The implementation's own `get_legal_moves` is used
+/// ONLY to bias the sample towards low mobility (≤ 2 legal moves, or an en-passant capture that is pseudo-legal but
+/// not legal); verdicts never depend on it.
+pub fn g7_candidate(rng: &mut Rng) -> Option<(ChessBoard, &'static str)> {
+    let mut cells: [Option<Piece>; 64] = [None; 64];
+    let stm = if rng.pct(50) { Color::White } else { Color::Black };
+    let (own, opp) = (stm, if stm == Color::White { Color::Black } else { Color::White });
+    let (pr, er, or) = if stm == Color::White { (4usize, 5usize, 6usize) } else { (3, 2, 1) };
+    let mut ep: Option<usize> = None;
+    let mut kind = "lowmob";
+    let mut own_king: Option<usize> = None;
+    if rng.pct(60) {
+        let f = rng.below(8);
+        let gf = if f == 0 { 1 } else if f == 7 { 6 } else if rng.pct(50) { f - 1 } else { f + 1 };
+        cells[pr * 8 + f] = Some(Piece(PieceType::Pawn, own));
+        cells[pr * 8 + gf] = Some(Piece(PieceType::Pawn, opp));
+        ep = Some(er * 8 + gf);
+        kind = "ep";
+        if rng.pct(50) {
+            // rank discovery: king on one side of the two pawns, enemy R/Q on the other
+            let (lo, hi) = (f.min(gf), f.max(gf));
+            let left: Vec<usize> = (0..lo).collect();
+            let right: Vec<usize> = (hi + 1..8).collect();
+            if !left.is_empty() && !right.is_empty() {
+                let (kf, sf) = if rng.pct(50) { (*rng.pick(&left), *rng.pick(&right)) } else { (*rng.pick(&right), *rng.pick(&left)) };
+                cells[pr * 8 + kf] = Some(Piece(PieceType::King, own));
+                own_king = Some(pr * 8 + kf);
+                let t = if rng.pct(50) { PieceType::Rook } else { PieceType::Queen };
+                cells[pr * 8 + sf] = Some(Piece(t, opp));
+                kind = "ep-rank";
+            }
+        }
+    }
+    let reserved = |s: usize, ep: Option<usize>| -> bool {
+        match ep { Some(e) => s == e || s == (or * 8 + e % 8), None => false }
+    };
+    if own_king.is_none() {
+        for _ in 0..200 {
+            let s = if rng.pct(60) { let e = rng.below(28); [0,1,2,3,4,5,6,7,8,16,24,32,40,48,56,57,58,59,60,61,62,63,15,23,31,39,47,55][e] } else { rng.below(64) };
+            if cells[s].is_none() && !reserved(s, ep) { cells[s] = Some(Piece(PieceType::King, own)); own_king = Some(s); break; }
+        }
+    }
+    own_king?;
+    let mut placed_ok = false;
+    for _ in 0..200 {
+        let s = rng.below(64);
+        if cells[s].is_none() && !reserved(s, ep) { cells[s] = Some(Piece(PieceType::King, opp)); placed_ok = true; break; }
+    }
+    if !placed_ok { return None; }
+    let extra = rng.range(0, 6);
+    for _ in 0..extra {
+        let t = pt(rng.below(5));
+        let c = if rng.pct(70) { opp } else { own };
+        for _try in 0..50 {
+            let s = rng.below(64);
+            if cells[s].is_some() || reserved(s, ep) { continue; }
+            if t == PieceType::Pawn && (s < 8 || s >= 56) { continue; }
+            cells[s] = Some(Piece(t, c));
+            break;
+        }
+    }
+    let pcs: Vec<(Square, Piece)> = (0..64).filter_map(|i| cells[i].map(|p| (sq(i), p))).collect();
+    let none = CastlingRights::from_index(0).unwrap();
+    let b = catch(|| ChessBoard::setup(&pcs, stm, none, none, ep.map(sq), draw_clock(rng), draw_clock(rng)).ok()).flatten()?;
+    let legal = catch(|| b.get_legal_moves())?;
+    let low = legal.len() <= 2;
+    let ep_illegal = match ep {
+        Some(e) => {
+            // an own pawn attacks the ep square but no legal move lands on it with a pawn
+            let has_ep_legal = legal.iter().any(|m| match m { BoardMove::MovePiece(pm) => pm.get_piece_type() == PieceType::Pawn && pm.get_destination_square() == sq(e), _ => false });
+            !has_ep_legal
+        }
+        None => false,
+    };
+    if low || ep_illegal || rng.pct(3) { Some((b, if low { "lowmob" } else { kind })) } else { None }
+}
+
+pub fn g7(budget: usize, rng: &mut Rng, out: &mut Out, f: &mut dyn FnMut(&mut Out, &Visit, &mut Rng)) {
+    let mut kept = 0usize;
+    let mut tries = 0usize;
+    while kept < budget && tries < budget * 400 + 1000 && out.room() {
+        tries += 1;
+        out.stats.inc("gen.g7_candidates");
+        if let Some((b, kind)) = g7_candidate(rng) {
+            kept += 1;
+            out.stats.inc(&format!("gen.g7_kept_{kind}"));
+            note_position(&mut out.stats, &b, 7);
+            f(out, &Visit { board: &b, played: None, gen: 7 }, rng);
+        }
+    }
+}
+
+// ---------------------------------------------------------------------------------------------
 // G3
 // ---------------------------------------------------------------------------------------------
 
@@ -900,4 +999,7 @@ pub fn all_sources(
     g2(budgets[1], &mut r2, out, f);
     let mut r3 = Rng::new(seed, 103);
     g3(budgets[2], &mut r3, out, f);
+    // G7 rides on the G3 budget (a quarter of it, at least 10)
+    let mut r7 = Rng::new(seed, 107);
+    g7((budgets[2] / 4).max(10), &mut r7, out, f);
 }
